@@ -161,7 +161,7 @@ echo "end $GROG_TARGET" >> "$VTRACE"`
 	}
 	appCmd += `rm -rf dist
 mkdir -p dist/empty dist/sub
-printf 'app[%s|%s]' "$(cat app.in)" "$(cat "$(output //a:lib 0)")" > dist/app.txt
+printf 'app[%s|%s|%s]' "$(cat app.in)" "$(cat "$(output //a:lib 0)")" "$(cat ../a/out/lib.txt)" > dist/app.txt
 printf '#!/bin/sh\necho run\n' > dist/sub/run.sh
 chmod +x dist/sub/run.sh
 ln -s app.txt dist/link
